@@ -335,7 +335,13 @@ type Decls struct {
 	// named abbreviations of large ground terms: emitted as define-fun in creation order
 	defs   map[string]*defn
 	byBody map[string]string
+	// per-text caches (the same assertion text recurs in most obligations of a path)
+	scanCache map[string][]appRec
+	tokCache  map[string][]string
 }
+
+var smtBuiltin = map[string]bool{"and": true, "or": true, "not": true, "=": true, "=>": true, "+": true, "-": true, "*": true, "<": true, "<=": true,
+	">": true, ">=": true, "ite": true, "store": true, "div": true, "mod": true, "distinct": true, "let": true, "forall": true, "exists": true, "select": true}
 
 type defn struct {
 	sort, body string
@@ -372,6 +378,26 @@ func (d *Decls) Pat(key string, f func(args []string) string) {
 	d.mu.Unlock()
 }
 
+// PatAdd conjoins a further fact to the pattern key
+func (d *Decls) PatAdd(key string, f func(args []string) string) {
+	d.mu.Lock()
+	if g, ok := d.pat[key]; ok {
+		d.pat[key] = func(args []string) string {
+			a, b := g(args), f(args)
+			if a == "" {
+				a = "true"
+			}
+			if b == "" {
+				b = "true"
+			}
+			return sAnd(a, b)
+		}
+	} else {
+		d.pat[key] = f
+	}
+	d.mu.Unlock()
+}
+
 // patternFacts scans the texts for ground applications matching registered patterns and returns the instantiated facts
 func (d *Decls) patternFacts(texts []string) []string {
 	seen := map[string]bool{}
@@ -401,9 +427,29 @@ func (d *Decls) patternFacts(texts []string) []string {
 		}
 	}
 	for _, t := range texts {
-		scanApps(t, emit)
+		recs, ok := d.scanCache[t]
+		if !ok {
+			scanApps(t, func(key string, args []string) {
+				if strings.HasPrefix(key, "app:") && smtBuiltin[key[4:]] {
+					return
+				}
+				recs = append(recs, appRec{key, args})
+			})
+			if d.scanCache == nil {
+				d.scanCache = map[string][]appRec{}
+			}
+			d.scanCache[t] = recs
+		}
+		for _, r := range recs {
+			emit(r.key, r.args)
+		}
 	}
 	return out
+}
+
+type appRec struct {
+	key  string
+	args []string
 }
 
 // scanApps walks the s-expressions of text and reports pattern keys with argument texts
@@ -556,11 +602,44 @@ func (d *Decls) symbols(texts []string) []string {
 		}
 	}
 	d.mu.Lock()
+	if d.tokCache == nil {
+		d.tokCache = map[string][]string{}
+	}
 	for _, t := range texts {
-		scan(t)
+		toks, ok := d.tokCache[t]
+		if !ok {
+			toks = uniqueTokens(t)
+			d.tokCache[t] = toks
+		}
+		for _, tok := range toks {
+			scan(tok)
+		}
 	}
 	d.mu.Unlock()
 	sort.Strings(out)
+	return out
+}
+
+func uniqueTokens(s string) []string {
+	seen := map[string]bool{}
+	var out []string
+	i := 0
+	for i < len(s) {
+		ch := s[i]
+		if ch == '(' || ch == ')' || ch == ' ' || ch == '\n' || ch == '\t' {
+			i++
+			continue
+		}
+		j := i
+		for j < len(s) && s[j] != '(' && s[j] != ')' && s[j] != ' ' && s[j] != '\n' && s[j] != '\t' {
+			j++
+		}
+		if tok := s[i:j]; !seen[tok] {
+			seen[tok] = true
+			out = append(out, tok)
+		}
+		i = j
+	}
 	return out
 }
 
